@@ -362,6 +362,7 @@ struct Engine : public vf::Engine {
                     size_t lo = S.cls == 0 ? 0 : classSize[S.cls - 1] + 1, hi = classSize[S.cls];
                     size = o.b == 1 ? hi : lo; fired("release_with_other_size_of_class");
                 }
+                else if (S.cls == 5 && o.b) { size = o.b == 1 ? S.req + 4097 : 257; fired("release_of_big_buffer_with_other_big_size"); }      // not cached is a class too: the buffer is found by its address
                 // position in the used list: for the probes
                 if (adaptor) adaptor->free_memory(S.p, size, "cachesim", oi); else cache->dealloc(S.p, size);
                 if (S.cls < 5) { pool[S.cls].push_back(S.p); everReleased.push_back(std::make_pair(S.p, S.cls)); }
